@@ -296,11 +296,25 @@ func bodyClass(b []byte) string {
 	case len(b) == 0:
 		return "empty"
 	case !utf8.Valid(b):
+		// valid for a long prefix and then not: the case a sniffing encoder gets wrong
+		if len(b) > 520 && utf8.Valid(trimPartialRune(b[:512])) {
+			return "utf8-prefix-then-invalid"
+		}
 		return "non-utf8"
 	case bytes.IndexByte(b, 0) >= 0:
 		return "nul"
 	}
 	return "utf8"
+}
+
+func trimPartialRune(b []byte) []byte {
+	for i := 0; i < 4 && len(b) > 0; i++ {
+		if r, n := utf8.DecodeLastRune(b); r != utf8.RuneError || n > 1 {
+			return b
+		}
+		b = b[:len(b)-1]
+	}
+	return b
 }
 
 // checkRequest compares the logged request (neutral view; text already
@@ -382,32 +396,44 @@ func checkRequest(src string, jr *jRequest, textBytes []byte, s *msgx.Spec, opt 
 				binaryParams = true
 			}
 		}
+		for _, p := range s.Form {
+			if !utf8.ValidString(p.Value) {
+				binaryParams = true
+			}
+		}
+		// value of a parameter in the neutral view ("encoding" is set only in the JSON view)
+		encoded := false
+		paramValue := func(p jParam) string {
+			if p.Encoding == "" {
+				return p.Value
+			}
+			encoded = true
+			b, err := decodeText(p.Value, p.Encoding)
+			if err != nil {
+				add("json", "param-encoding", "posted parameter value cannot be decoded: "+err.Error())
+				return p.Value
+			}
+			return string(b)
+		}
 		switch s.BodyKind {
 		case "form":
 			var gp, wp []string
 			for _, p := range pd.Params {
-				gp = append(gp, p.Name+"\x00"+p.Value+"\x00"+p.FileName+"\x00"+p.ContentType)
+				gp = append(gp, p.Name+"\x00"+paramValue(p)+"\x00"+p.FileName+"\x00"+p.ContentType)
+			}
+			if encoded {
+				binaryParams = false // the document says how the bytes are carried: judge it
 			}
 			for _, p := range s.Form {
 				wp = append(wp, p.Name+"\x00"+p.Value+"\x00\x00")
 			}
-			if d := diffMultiset(gp, wp); d != "" {
+			if d := diffMultiset(gp, wp); d != "" && !(src == "json" && binaryParams) {
 				add("post-data", paramClass("form-params"), "urlencoded parameters differ from the posted form: "+d)
 			}
 		case "multipart":
 			var gp, wp []string
-			encoded := false
 			for _, p := range pd.Params {
-				v := p.Value
-				if p.Encoding != "" {
-					encoded = true
-					if b, err := decodeText(p.Value, p.Encoding); err == nil {
-						v = string(b)
-					} else {
-						add("json", "param-encoding", "posted parameter value cannot be decoded: "+err.Error())
-					}
-				}
-				gp = append(gp, p.Name+"\x00"+v+"\x00"+p.FileName+"\x00"+p.ContentType)
+				gp = append(gp, p.Name+"\x00"+paramValue(p)+"\x00"+p.FileName+"\x00"+p.ContentType)
 			}
 			if encoded {
 				binaryParams = false // the document says how the bytes are carried: judge it
